@@ -62,7 +62,8 @@ def lint_cases(rec):
 
 
 def run(ctx):
-    ctx.mc('MC_LintFix', 'MC_LintFix', workers=4, timeout=2400, coverage=False)
+    if not ctx.replay:
+        ctx.mc('MC_LintFix', 'MC_LintFix', workers=4, timeout=2400, coverage=False)
 
     if ctx.replay:
         c = ctx.replay['case']
